@@ -18,7 +18,7 @@
    reads are visible; local variables are named like the identifiers generated code
    declares. "On the calling goroutine, before any task starts" and the absence of
    capture are runtime/Go-scoping facts: observed by the correspondence, not theorems. *)
-From CffVerif Require Import PrologueModel PrologueProofs.
+From CffVerif Require Import PrologueModel PrologueProofs ScopeModel ScopeProofs.
 From Coq Require Import Sorted.
 
 Theorem C15_sorted : forall uses, StronglySorted lt (prologue uses).
@@ -52,6 +52,23 @@ Print Assumptions C15_source_order.
 Theorem C15_distinct_variables : forall l1 c1 l2 c2, varname l1 c1 = varname l2 c2 -> l1 = l2 /\ c1 = c2.
 Proof. intros l1 c1 l2 c2 H. injection H as -> ->. split; reflexivity. Qed.
 Print Assumptions C15_distinct_variables.
+
+(* capture (ScopeModel): a hoisted expression is evaluated inside the closure
+   func() (err error) { ... } before the body declares anything; its free identifiers are
+   bound as in the source unless one of them is the closure's result name `err` or the name
+   of an earlier hoisted variable (C15_no_capture). The exception is real: known finding F9
+   (C15_capture_refuted is its model-level witness, probe ErrCapture its replay on the tool). *)
+Theorem C15_no_capture :
+  forall earlier locals file x, x <> id_err -> ~ In x earlier ->
+    bound_in_generated earlier locals file x = bound_in_source locals file x.
+Proof. exact no_capture. Qed.
+Print Assumptions C15_no_capture.
+
+Theorem C15_capture_refuted :
+  exists earlier locals file,
+    bound_in_source locals file id_err = BUserLocal /\ bound_in_generated earlier locals file id_err = BClosure.
+Proof. exact capture_refuted. Qed.
+Print Assumptions C15_capture_refuted.
 
 Example C15_witness :
   prologue [24; 21; 22; 24; 23; 21] = [21; 22; 23; 24] /\
